@@ -110,9 +110,17 @@ def handle (args : List String) : String :=
     | some sp =>
       match Program.run shippedPP sp (fun m d => decToFloat (m, d)) po (optsOf pa to) lines with
       | .error e => "err:" ++ Pdb.showErr e
-      | .ok confs => "&".intercalate (confs.map fun c => match c.2 with
+      | .ok confs =>
+        let showD (ds : List (Dets.Det Float)) : String :=
+          if ds.isEmpty then "-" else ",".intercalate (ds.map fun d => s!"{tohexS d.label}:{fbits d.value}")
+        let avr := match Program.averageRun confs with
+          | none => "valueerror"
+          | some gs => if gs.isEmpty then "-" else ";".intercalate (gs.map fun g =>
+              "|".intercalate [tohexS g.label, tohexS g.type, fbits g.acc.pka, fbits g.nv, fbits g.acc.evol, fbits g.acc.eloc, fbits g.buried,
+                showD g.acc.sc, showD g.acc.bb, showD g.acc.cb])
+        "&".intercalate ((confs.map fun c => match c.2 with
           | none => c.1 ++ "@valueerror"
-          | some (r, out) => c.1 ++ "@" ++ showPrep r ++ "#" ++ (if out.isEmpty then "-" else ";".intercalate (out.map showOut)))
+          | some (r, out) => c.1 ++ "@" ++ showPrep r ++ "#" ++ (if out.isEmpty then "-" else ";".intercalate (out.map showOut))) ++ ["AVR@" ++ avr])
   | _ => "bad-op"
 
 end Propka.Pipe
